@@ -110,6 +110,7 @@ fn span_str(s: &Span) -> String {
 }
 
 include!("c14_ast.inc");
+include!("c14_gram.inc");
 
 // ------------------------------------------------------------------------------------------------
 // description of one located error (and its minijinja cause chain)
@@ -124,14 +125,75 @@ fn fmt_mask(e: &Error) -> (u32, String) {
             3 => format!("{:#?}", e),
             _ => format!("{}", e.display_debug_info()),
         });
-        if let Err(msg) = r {
-            mask |= 1 << i;
-            if first.is_empty() {
-                first = msg;
+        match r {
+            Err(msg) => {
+                mask |= 1 << i;
+                if first.is_empty() {
+                    first = msg;
+                }
+            }
+            Ok(full) => {
+                // the same form into writers that fail after `budget` bytes (bits 5..9): whatever write
+                // of the display path is the one that fails, the formatter has to hand the failure back
+                let n = full.len();
+                // (what the display path does with a failing writer does not depend on the size of the source;
+                // rendering the window of a 65535-line source 50 times per error would only cost time)
+                if e.template_source().map_or(false, |s| s.len() > 4096) {
+                    continue;
+                }
+                let mut budgets = vec![0, 1, n.saturating_sub(1)];
+                for k in 1..8 {
+                    budgets.push(n * k / 8);
+                }
+                budgets.sort();
+                budgets.dedup();
+                for b in budgets {
+                    let r = guarded(|| {
+                        use std::fmt::Write as _;
+                        let mut w = FailingWriter { left: b, failed: false };
+                        let res = match i {
+                            0 => write!(w, "{}", e),
+                            1 => write!(w, "{:#}", e),
+                            2 => write!(w, "{:?}", e),
+                            3 => write!(w, "{:#?}", e),
+                            _ => write!(w, "{}", e.display_debug_info()),
+                        };
+                        (res.is_ok(), w.failed)
+                    });
+                    match r {
+                        Err(msg) => {
+                            mask |= 1 << (5 + i);
+                            if first.is_empty() {
+                                first = format!("{} (into a writer that fails after {} of {} bytes)", msg, b, n);
+                            }
+                            break;
+                        }
+                        // (whether a failure of the writer is handed back or swallowed is not C14's business)
+                        Ok(_) => {}
+                    }
+                }
             }
         }
     }
     (mask, first)
+}
+
+/// a `fmt::Write` that accepts `left` bytes and fails from then on
+struct FailingWriter {
+    left: usize,
+    failed: bool,
+}
+
+impl std::fmt::Write for FailingWriter {
+    fn write_str(&mut self, s: &str) -> std::fmt::Result {
+        if self.failed || s.len() > self.left {
+            self.failed = true;
+            self.left = 0;
+            return Err(std::fmt::Error);
+        }
+        self.left -= s.len();
+        Ok(())
+    }
 }
 
 /// `(col, width)` of the caret line of the rendered debug info, if there is one
@@ -2037,7 +2099,28 @@ fn all_cases(tier: &str, rng: &mut Rng) -> Vec<Case> {
     v.extend(inner_cases(tier));
     v.extend(degenerate_cases());
     v.extend(planted_cases(tier, rng));
+    v.extend(grammar_cases(tier, rng));
     v
+}
+
+/// templates drawn from the grammar (c14_gram.inc), rendered as they are — undefined names, unknown filters /
+/// tests / functions, missing templates and type errors make most of them fail somewhere, in whatever
+/// construct combination the draw produced; every second one under strict undefined behaviour.  Class
+/// `planted`: the static predicates and the shift invariance of the whole error chain apply (the text is
+/// inserted in data state at the very start of the template).
+fn grammar_cases(tier: &str, rng: &mut Rng) -> Vec<Case> {
+    let (gt, _) = grammar_sources(rng, if tier == "quick" { 240 } else { 1200 });
+    gt.iter()
+        .enumerate()
+        .map(|(i, t)| Case {
+            id: format!("gram_{}", i),
+            templates: vec![("main".into(), format!("@@{}", t))],
+            main: "main".into(),
+            shifted: "main".into(),
+            flags: if i % 2 == 0 { "s".into() } else { String::new() },
+            class: "planted",
+        })
+        .collect()
 }
 
 /// which (cfg, v, h) variants a case gets.  Fixed-site cases: the whole shift grid in the default
@@ -2060,8 +2143,8 @@ fn variants(c: &Case, idx: usize, tier: &str) -> Vec<(&'static str, usize, usize
         let generated = ["sl_", "row_", "inn_", "print_", "deg_"].iter().any(|p| c.id.starts_with(p));
         let only = SPANLESS_SITES.iter().find(|s| c.id.starts_with(&format!("sl_{}_", s.0))).map(|s| s.3).unwrap_or("");
         let xcfg: &'static str = if c.id.starts_with("sl_") && !only.is_empty() { only } else { "d" };
-        for layout in 0..3 {
-            if layout == 0 || tier == "thorough" || !generated || idx % 2 == layout % 2 {
+        for layout in 0..4 {
+            if layout == 0 || layout == 3 || tier == "thorough" || !generated || idx % 2 == layout % 2 {
                 out.push((xcfg, EXPLODED_FIRST + layout, 0));
             }
         }
@@ -2291,7 +2374,7 @@ fn gen(tier: &str, k: usize, n: usize) {
     // cga stream: AST dump + per-pc tables of the whole program, as written and in the three
     // "newline at the token gaps" layouts
     for src in cga_templates(tier) {
-        for layout in 0..4usize {
+        for layout in 0..5usize {
             let q = match sh.mine() {
                 Some(q) => q,
                 None => continue,
@@ -2324,6 +2407,23 @@ fn gen(tier: &str, k: usize, n: usize) {
             writeln!(out, "{}.0\tcge {}\t{}", q, Src::lit(&text).spec(), run_cge(&text)).unwrap();
         }
     }
+    // grammar-drawn templates and expressions: every span of the AST (ast), the per-statement tables (stm),
+    // the node-span classification and the code generator correspondence (cga / cge)
+    let (gt, ge) = grammar_sources(&mut rng, if tier == "quick" { 500 } else { 3000 });
+    for src in &gt {
+        let q = match sh.mine() {
+            Some(q) => q,
+            None => continue,
+        };
+        writeln!(out, "{}.0\tast {}\t{}", q, Src::lit(src).spec(), run_ast(src)).unwrap();
+        writeln!(out, "{}.1\tstm {}\t{}", q, Src::lit(src).spec(), run_stm(src)).unwrap();
+        writeln!(out, "{}.2\tcga g {}\t{}", q, Src::lit(src).spec(), run_cga(src)).unwrap();
+    }
+    for src in &ge {
+        if let Some(q) = sh.mine() {
+            writeln!(out, "{}.0\tcge {}\t{}", q, Src::lit(src).spec(), run_cge(src)).unwrap();
+        }
+    }
     // cg stream
     for ops in cg_cases(tier, &mut rng) {
         if let Some(q) = sh.mine() {
@@ -2347,6 +2447,47 @@ fn main() {
             args.get(3).and_then(|s| s.parse().ok()).unwrap_or(0),
             args.get(4).and_then(|s| s.parse().ok()).unwrap_or(1),
         ),
+        Some("gram") => {
+            // debugging aid: the grammar-drawn sources and what the parser says about them
+            let mut rng = Rng::new(seed_from_env());
+            let (gt, ge) = grammar_sources(&mut rng, args.get(2).and_then(|s| s.parse().ok()).unwrap_or(50));
+            for s in gt {
+                let r = machinery::parse(&s, "main", SyntaxConfig::default(), WhitespaceConfig::default());
+                println!("T {:?} {:?}", r.err().map(|e| e.to_string()), s);
+            }
+            for s in ge {
+                let r = machinery::parse_expr(&s);
+                println!("E {:?} {:?}", r.err().map(|e| e.to_string()), s);
+            }
+        }
+        Some("gramstream") => {
+            // the grammar-drawn part of `gen` alone, for `n` templates / expressions (robustness runs over many
+            // draws): ast, stm, cga, cge and the err cases in the default configuration
+            let n: usize = args.get(2).and_then(|s| s.parse().ok()).unwrap_or(1000);
+            let mut rng = Rng::new(seed_from_env());
+            let (gt, ge) = grammar_sources(&mut rng, n);
+            let stdout = std::io::stdout();
+            let mut out = std::io::BufWriter::new(stdout.lock());
+            for (i, src) in gt.iter().enumerate() {
+                writeln!(out, "ast {}\t{}", Src::lit(src).spec(), run_ast(src)).unwrap();
+                writeln!(out, "stm {}\t{}", Src::lit(src).spec(), run_stm(src)).unwrap();
+                writeln!(out, "cga g {}\t{}", Src::lit(src).spec(), run_cga(src)).unwrap();
+                let c = Case {
+                    id: format!("gram_{}", i),
+                    templates: vec![("main".into(), format!("@@{}", src))],
+                    main: "main".into(),
+                    shifted: "main".into(),
+                    flags: if i % 2 == 0 { "s".into() } else { String::new() },
+                    class: "planted",
+                };
+                for (vi, hi) in [(0, 0), (1, 0), (3, 2), (2, 1)] {
+                    writeln!(out, "err {} {} d {} {}\t{}", c.id, c.class, vi, hi, run_case(&c, "d", vi, hi)).unwrap();
+                }
+            }
+            for src in &ge {
+                writeln!(out, "cge {}\t{}", Src::lit(src).spec(), run_cge(src)).unwrap();
+            }
+        }
         Some("one") => {
             let stream = args[2].as_str();
             match stream {
